@@ -12,6 +12,7 @@ import gc
 import pickle
 
 from ..core import Violation, HarnessError, stream, sut
+from ..core import deep
 
 ID = "C11"
 UNSET = "<unset>"
@@ -48,7 +49,7 @@ class Prop:
         ncand = c.randint(2, 3)
         nmid = 2
         listen = {n: c.choice(["none", "otc", "obs", "both"]) for n in names}
-        nops = c.choice([5, 10, 16, 24, 40])
+        nops = deep(c, [5, 10, 16, 24, 40], [60, 90])
         ctr = [100]
         ops = []
         for _ in range(nops):
